@@ -278,6 +278,15 @@ def handle (op : String) (fs : List (String × String)) : String :=
   -- D: a table given as BYTES: whatever gtab.Read accepts must be applicable without a panic
   -- (C07_no_panic for reader-delivered tables); the expected value does not depend on the bytes
   if op == "shape.readsafe" then "ok" else
+  -- D: sfnt.Layouter.Layout with a glyph ID that cmap / GSUB delivers: no panic, text kept, the
+  -- advance of a glyph beyond the font is 0 (`Font.GlyphWidth` out of range), else its width
+  if op == "shape.layout" then
+    match (getField fs "ng").bind String.toNat?, (getField fs "target").bind String.toNat?,
+      (getField fs "w").bind String.toInt? with
+    | some ng, some target, some w =>
+      s!"ok gid={target} adv={if target < ng then w else 0} text=kept"
+    | _, _, _ => "bad-case"
+  else
   match parseCase fs with
   | none => "bad-case"
   | some c =>
